@@ -52,6 +52,10 @@ type Params struct {
 	RB         int  // reader's buffer size (0 = 4096)
 	SlowReader bool // the reader pauses 1 ms (virtual) between reads: the close overtakes it
 	Raw        bool // drive protocol.Mux directly: the client writes and closes without ever reading
+	// CounterFlow: while it reads, the reader's application also writes this many bytes toward
+	// the writer (which never reads them): the writer's session receives data and sends
+	// acknowledgements while its own data and its close are still queued
+	CounterFlow int
 }
 
 func (p Params) String() string {
@@ -59,7 +63,7 @@ func (p Params) String() string {
 	if p.UDP {
 		t = fmt.Sprintf("udp mtu=%d lat=%v faults=%v", p.MTU, p.Latency, p.Faults)
 	}
-	return fmt.Sprintf("%s sizes=%v closer-is-server=%v tp=%s maxread=%d nowait=%v rb=%d slow-reader=%v raw-mux=%v seed=%d", t, p.Sizes, p.ServerSide, p.TP, p.MaxRead, p.NoWait, p.RB, p.SlowReader, p.Raw, p.Seed)
+	return fmt.Sprintf("%s sizes=%v closer-is-server=%v tp=%s maxread=%d nowait=%v rb=%d slow-reader=%v raw-mux=%v seed=%d", t, p.Sizes, p.ServerSide, p.TP, p.MaxRead, p.NoWait, p.RB, p.SlowReader, p.Raw, p.Seed) + fmt.Sprintf(" counter-flow=%d", p.CounterFlow)
 }
 
 var verbose = false
@@ -107,6 +111,16 @@ func exec(p Params, pats []xfer.NamedTP, ctl *explore.Ctl) explore.Result {
 			closeTook = time.Duration(w.S.NowNS() - t0)
 		}
 		read := func(rd net.Conn) {
+			if p.CounterFlow > 0 {
+				w.Go("counter-flow", vsched.Cur().Node, func() {
+					for left := p.CounterFlow; left > 0; left -= 500 {
+						if _, err := rd.Write(world.Pattern(1, 'y', 0, min(left, 500))); err != nil {
+							return
+						}
+						vsched.Sleep(time.Millisecond)
+					}
+				})
+			}
 			got := 0
 			rb := p.RB
 			if rb == 0 {
@@ -224,6 +238,9 @@ func exec(p Params, pats []xfer.NamedTP, ctl *explore.Ctl) explore.Result {
 			case closeTook >= time.Second:
 				sig = "udp/eof-after-prefix/close-wait-expired"
 				why = fmt.Sprintf("no fault; Close() took %v: it gave up waiting for the send queue to drain and discarded data that Write had accepted", closeTook)
+			case p.CounterFlow > 0:
+				sig = "udp/eof-after-prefix/closer-was-receiving"
+				why = fmt.Sprintf("no fault; the closing side was receiving data while it closed and Close() returned after %v with data still queued", closeTook)
 			default:
 				sig = "udp/eof-after-prefix/unexplained"
 				why = fmt.Sprintf("no fault on the writer's datagrams and Close() took only %v", closeTook)
@@ -295,6 +312,23 @@ func units(tier string) []runner.Unit {
 						p := Params{UDP: udp, MTU: 1400, Latency: 5 * time.Millisecond, Sizes: sz, ServerSide: ss, TP: []string{"nil", "pad255", "le40-R1"}[i%3], Seed: int64(i), RB: rb, SlowReader: true}
 						i++
 						run(u, p, explore.Bound{})
+					}
+				}
+			}
+		}
+		// counter-flow: the closing side is receiving data while its own data and close drain
+		for _, udp := range []bool{false, true} {
+			for _, ss := range []bool{false, true} {
+				for _, sz := range [][]int{{3000}, {20000}, {1, 1025, 9000}, {100000}} {
+					for _, cf := range []int{500, 20000} {
+						for _, lat := range []time.Duration{5, 50, 300} {
+							if !udp && lat != 5 {
+								continue
+							}
+							p := Params{UDP: udp, MTU: 1400, Latency: lat * time.Millisecond, Sizes: sz, ServerSide: ss, TP: []string{"nil", "pad255", "le40-R1"}[i%3], Seed: int64(i), CounterFlow: cf}
+							i++
+							run(u, p, explore.Bound{})
+						}
 					}
 				}
 			}
